@@ -22,13 +22,35 @@ pub fn g_found(d: &FoundDependency) -> String {
 }
 
 fn gen_field(rng: &mut Rng, dirty: bool) -> String {
-	let clean: [&str; 19] = ["org.example", "a", "foo-bar", "1.0", "1.2.3-SNAPSHOT", "", "jar", "ü", "x y", "@", " @", "漢字", "a/b", "sources", "war", "pom", "test-jar", "compile", "@ "];
+	let clean: [&str; 36] = ["org.example", "a", "foo-bar", "1.0", "1.2.3-SNAPSHOT", "", "jar", "ü", "x y", "@", " @", "漢字", "a/b", "sources", "war", "pom", "test-jar", "compile", "@ ",
+		"ejb", "ejb-client", "maven-plugin", "bundle", "java-source", "javadoc", "ear", "rar", "zip", "JAR", "jar ", "1.5-20230713.025619-3", "2-20230713.025619-", "a.b.c-1-20230713.02561-3", "😀", "x-12345678.123456-7", "\u{2003}"];
 	let bad: [&str; 6] = [":", "a:b", " @ ", "x @ y", "::", " @ :"];
 	if dirty && rng.chance(1, 3) { rng.pick(&bad).to_string() } else { rng.pick(&clean).to_string() }
 }
 fn gen_coord(rng: &mut Rng, dirty: bool) -> ACoord {
 	ACoord { group: gen_field(rng, dirty), artifact: gen_field(rng, dirty), version: gen_field(rng, dirty),
-		classifier: if rng.chance(1, 2) { Some(gen_field(rng, dirty)) } else { None }, type_: gen_field(rng, dirty) }
+		classifier: if rng.chance(1, 2) { Some(gen_field(rng, dirty)) } else { None },
+		type_: if rng.chance(1, 2) { rng.pick(&HANDLER_TYPES).0.to_string() } else { gen_field(rng, dirty) } }
+}
+/// Maven's default artifact handlers (type, extension) and the bundle plugin's type; any other type is its own extension
+pub const HANDLER_TYPES: [(&str, &str); 12] = [("pom", "pom"), ("jar", "jar"), ("test-jar", "jar"), ("maven-plugin", "jar"), ("ejb", "jar"), ("ejb-client", "jar"), ("war", "war"),
+	("ear", "ear"), ("rar", "rar"), ("java-source", "jar"), ("javadoc", "jar"), ("bundle", "jar")];
+/// the repository layout: <repo>/<group with '/' for '.'>/<artifact>/<base version>/<artifact>-<version>[-<classifier>].<extension>
+fn layout_url(maven: &str, c: &ACoord) -> String {
+	let ext = HANDLER_TYPES.iter().find(|(t, _)| *t == c.type_).map_or(c.type_.as_str(), |(_, e)| *e);
+	format!("{}/{}/{}/{}/{}-{}{}.{}", maven.strip_suffix('/').unwrap_or(maven), c.group.replace('.', "/"), c.artifact, base_version(&c.version), c.artifact, c.version,
+		c.classifier.as_ref().map_or(String::new(), |k| format!("-{k}")), ext)
+}
+/// `group:artifact[:type[:classifier]]:version` as documented on MavenCoord
+fn doc_parse(s: &str) -> Option<ACoord> {
+	let p: Vec<&str> = s.split(':').collect();
+	let (g, a) = (p.first()?.to_string(), p.get(1)?.to_string());
+	match p.len() {
+		3 => Some(ACoord { group: g, artifact: a, version: p[2].into(), classifier: None, type_: "jar".into() }),
+		4 => Some(ACoord { group: g, artifact: a, version: p[3].into(), classifier: None, type_: p[2].into() }),
+		5 => Some(ACoord { group: g, artifact: a, version: p[4].into(), classifier: Some(p[3].into()), type_: p[2].into() }),
+		_ => None,
+	}
 }
 fn clean_field(s: &str) -> bool { !s.contains(':') && !s.contains(" @ ") }
 fn clean_coord(c: &ACoord) -> bool {
@@ -64,6 +86,11 @@ pub fn cases(r: &mut Report, rng: &mut Rng, n: usize) {
 		let pieces = rng.range(0, 7);
 		let free = (0..pieces).map(|_| gen_field(rng, false)).collect::<Vec<_>>().join(":");
 		let got = MavenCoord::from_str(&free).ok();
+		if got.as_ref().map(of_coord) != doc_parse(&free) {
+			r.violation("MavenCoord::from_str does not read `group:artifact[:type[:classifier]]:version` (3, 4 or 5 pieces; type defaults to jar, classifier to none)".into(),
+				format!("property C19\ntext {free:?}\nparsed {got:?}\ndocumented form gives {:?}\n", doc_parse(&free)));
+		}
+		r.count(&format!("coord_text_pieces_{}", free.split(':').count().min(7)));
 		r.case("coord-parse", format!("CCoordParse {} {}", gs(&free), gres(got.as_ref().map(|b| g_coord(&of_coord(b))))));
 		r.eval(&format!("coordtext {free}"), got.is_some());
 		if let Some(b) = &got { // printing what was parsed and parsing again is stable
@@ -86,6 +113,22 @@ pub fn cases(r: &mut Report, rng: &mut Rng, n: usize) {
 				r.violation("FoundDependency: try_from(to_string(d)) differs from d (up to the repository name) although no coordinate field contains ':' or \" @ \"".into(),
 					format!("property C19\ndependency {d:?}\nprinted {dtext:?}\nparsed {parsed:?}\n"));
 			}
+		}
+		// the artifact's URL in the repository (FoundDependency::make_url -> MavenCoord::make_url, Types::type_to_extension)
+		match guarded({ let d = FoundDependency { resolver: d.resolver.clone(), coord: mc.clone(), scope }; move || d.make_url() }) {
+			Ok(u) => {
+				if u != layout_url(&url, &c) { r.violation("FoundDependency::make_url is not the repository layout's path of the artifact".into(), format!("property C19\ndependency {d:?}\nmake_url {u:?}\nrepository layout {:?}\n", layout_url(&url, &c))); }
+				r.case("artifact-url", format!("CFoundUrl {} {}", g_found(&d), gs(&u)));
+				r.count(if HANDLER_TYPES.iter().any(|(t, _)| *t == c.type_) { "artifact_url_known_type" } else { "artifact_url_other_type" });
+			}
+			Err(p) => r.violation(format!("FoundDependency::make_url panicked: {p}"), format!("property C19\n{d:?}\n")),
+		}
+		if i % 7 == 0 {
+			let b = MavenCoord::from_group_artifact_version(&c.group, &c.artifact, &c.version);
+			if b != (MavenCoord { group: c.group.clone(), artifact: c.artifact.clone(), version: c.version.clone(), classifier: None, type_: "jar".into() }) {
+				r.violation("MavenCoord::from_group_artifact_version is not (group, artifact, version, no classifier, type jar)".into(), format!("property C19\n{c:?}\n{b:?}\n"));
+			}
+			r.case("coord", format!("CCoordGav {} {} {} {}", gs(&c.group), gs(&c.artifact), gs(&c.version), g_coord(&of_coord(&b))));
 		}
 		// mutated text through the parser
 		let mut m: Vec<char> = dtext.chars().collect();
